@@ -162,3 +162,19 @@ def krylov_desc(draw, nmax=14, kinds=('herm_real', 'herm_complex'), extra_m=3):
     return {'kind': kind, 'real_start': real_start, 'mult': mults, 'support': support,
             'seed': draw(st.integers(0, 2**31 - 1)), 'scale': draw(st.sampled_from([0.1, 1.0, 1.0, 1.0, 5.0])),
             'm': m, 'cond': draw(st.sampled_from([0.0, 0.3, 1.0]))}
+
+
+def afunc_of(A, form):
+    """The linear map x -> A x in two forms a caller may hand over: a function returning a fresh array, or a function that writes into
+    one preallocated buffer and returns that same buffer on every call (the library has to copy what it wants to keep).
+    (A read-only return value is NOT among the forms: the iterations update the returned array in place, every caller in the library
+    returns a fresh writable array, and nothing documents more - a first version of this generator included it and raised a false alarm
+    within one run.)"""
+    if form % 2 == 1:
+        buf = np.zeros(A.shape[0], dtype=complex)
+
+        def f(x):
+            buf[:] = A @ x
+            return buf
+        return f
+    return lambda x: A @ x
